@@ -830,16 +830,14 @@ def draw_sites(world):
                     continue  # a function of some other imported module that happens to share the name
                 out.append((fi, n, n.func.value, m))
             elif m in MORE_DRAWS:
-                # secondary names: only when the receiver is generator-like (attribute / name that is
-                # not an imported module, class or product object with such a method)
+                # secondary method names (normal, uniform, permutation, …): a candidate; rule_R1 keeps it
+                # only if the receiver's provenance walk reaches a generator (good or bad)
                 q = world.qualify(n.func, fi.module)
-                if q is not None:
+                if q is not None and not (q.startswith("numpy.random") or q.startswith("random.")):
                     continue
                 if any(m in c.methods for c in world.prog.classes.values()):
                     continue
-                r = n.func.value
-                if isinstance(r, (ast.Name, ast.Attribute)) and "rng" in u(r).lower():
-                    out.append((fi, n, r, m))
+                out.append((fi, n, n.func.value, "?" + m))
     out.sort(key=lambda t: (t[0].module.path, t[1].lineno, t[1].col_offset))
     return out
 
@@ -849,13 +847,17 @@ def rule_R1(ctx, world, tracer, reach):
     ctx.rule("R1", "every random draw uses a generator that data-flows from run.instantiate_and_seed_RNG(seed) or an element of <it>.spawn(n)", 26)
     sites = draw_sites(world)
     listing = []
+    n_sites = 0
     for fi, call, gen, m in sites:
         inst = "%s: %s" % (fi.qualname, u(call)[:90])
         if gen is None:
+            n_sites += 1
             ctx.fail("R1", inst, fi.where(call), "scipy .rvs(...) without random_state= draws from numpy's process-global generator, which the run's seed does not control", construct=fi.qualname, stmt=u(call))
             continue
         origins = tracer.trace(gen, fi)
-        kinds = sorted({o.kind for o in origins})
+        if m.startswith("?") and not any(o.kind in GOOD or (o.kind == "BAD" and o.gen) for o in origins):
+            continue  # receiver is not a random generator
+        n_sites += 1
         bad = [o for o in origins if o.kind == "BAD"]
         unk = [o for o in origins if o.kind == "UNKNOWN"]
         opn = [o for o in origins if o.kind == "OPEN"]
@@ -881,6 +883,9 @@ def rule_R1(ctx, world, tracer, reach):
         ctx.ok("R1", inst, fi.where(call), "origins: %s" % ", ".join(sorted({o.kind for o in good})))
         ctx.analysed(fi)
     ctx.extra["R1_sites"] = listing
+    ctx.extra["R1_draw_sites"] = n_sites
+    if n_sites < 26:
+        raise AnalysisError("R1 found %d random draw sites, fewer than the 26 confirmed by hand" % n_sites)
     if tracer.dropped:
         ctx.extra["R1_name_matched_call_sites_ignored"] = sorted(set(tracer.dropped))
     # the seeding function itself, and what is handed to it
@@ -1910,6 +1915,9 @@ def rule_R4(ctx, world, tracer, reach, facts):
                 raise AnalysisError("R4: as_completed(...) consumed by an unrecognised construct at %s" % fi.where(n))
             ctx.check(not offenders, "R4", inst, fi.where(n), "the order in which chains finish reaches the output: %s" % "; ".join(sorted(set(offenders))), construct=fi.qualname, stmt="as_completed consumers")
             ctx.analysed(fi)
+    ctx.note("R4: the results mapping is filled in completion order, so its *insertion order* (preserved by pickle) follows the schedule; "
+             "each chain's entry and key do not.  Readers must address chains by key (process_trace.write_map_results scans results.items() "
+             "with a strict '>' and so breaks exact log_p_one ties between chains by insertion order — post-processing, outside C18's statement)")
     # ---- (b) wall clock ------------------------------------------------------------------------------
     timer = prog.cls("utils.utils.Timer")
     tfam = {c.qualname for c in prog.subclasses(timer)} | {timer.qualname}
@@ -2007,4 +2015,67 @@ def run(ctx):
     rule_R4(ctx, world, tracer, reach, facts)
 
 
-SELFTEST = []
+# Self-test catalogue: one small textual edit each, applied to a scratch copy (see selftest.py).
+_R = "phyclone/run.py"
+_G = "phyclone/mcmc/gibbs_mh.py"
+_CONC = "phyclone/mcmc/concentration.py"
+_PG = "phyclone/mcmc/particle_gibbs.py"
+_KB = "phyclone/smc/kernels/base.py"
+_FA = "phyclone/smc/kernels/fully_adapted.py"
+_UN = "phyclone/smc/samplers/unconditional.py"
+_SU = "phyclone/smc/utils.py"
+_M = "phyclone/utils/math.py"
+_T = "phyclone/tree/tree.py"
+_IMP_NP_KB = {"file": _KB, "old": "from phyclone.smc.swarm import Particle\n", "new": "import numpy as np\nfrom phyclone.smc.swarm import Particle\n"}
+SELFTEST = [
+    # ---- R1 / R1f -----------------------------------------------------------------------------------
+    {"name": "R1-np-random-shuffle", "kind": "break", "rule": ["R1", "R1f"], "file": _G, "old": "self._rng.shuffle(data_idxs)", "new": "np.random.shuffle(data_idxs)"},
+    {"name": "R1-rvs-without-random_state", "kind": "break", "rule": ["R1", "R1f"], "file": _CONC, "old": "eta = beta.rvs(a=old_value + 1, b=n, random_state=self._rng)", "new": "eta = beta.rvs(a=old_value + 1, b=n)"},
+    {"name": "R1-rvs-random_state-None", "kind": "break", "rule": "R1", "file": _CONC, "old": "shape += bernoulli.rvs(pi, random_state=self._rng)", "new": "shape += bernoulli.rvs(pi, random_state=None)"},
+    {"name": "R1-default_rng-per-chain", "kind": "break", "rule": ["R1", "R1f"], "file": _R, "old": "    tree_dist = TreeJointDistribution(FSCRPDistribution(concentration_value))\n    kernel = setup_kernel(", "new": "    rng = np.random.default_rng()\n    tree_dist = TreeJointDistribution(FSCRPDistribution(concentration_value))\n    kernel = setup_kernel("},
+    {"name": "R1-kernel-keeps-fresh-generator", "kind": "break", "rule": ["R1", "R1f"], "edits": [_IMP_NP_KB, {"file": _KB, "old": "        self.perm_dist = perm_dist\n\n        self._rng = rng\n", "new": "        self.perm_dist = perm_dist\n\n        self._rng = np.random.default_rng()\n"}]},
+    {"name": "R1-proposal-ignores-kernel-rng", "kind": "break", "rule": ["R1", "R1f"], "edits": [_IMP_NP_KB, {"file": _KB, "old": "        self._rng = kernel.rng\n", "new": "        self._rng = np.random.default_rng()\n"}]},
+    {"name": "R1-seed-from-clock", "kind": "break", "rule": "R1", "edits": [{"file": _R, "old": "import numpy as np\n", "new": "import time\nimport numpy as np\n"}, {"file": _R, "old": "rng_main = instantiate_and_seed_RNG(seed)", "new": "rng_main = instantiate_and_seed_RNG(int(time.time()))"}]},
+    {"name": "R1-seeded-branch-unseeded", "kind": "break", "rule": "R1", "file": _R, "old": "        rng = np.random.default_rng(seed)\n", "new": "        rng = np.random.default_rng()\n"},
+    {"name": "R1-one-sampler-gets-fresh-rng", "kind": "break", "rule": ["R1", "R1f"], "file": _R, "old": "prg_sampler = PruneRegraphSampler(tree_dist, rng)", "new": "prg_sampler = PruneRegraphSampler(tree_dist, np.random.default_rng())"},
+    {"name": "R1-stdlib-random-choice", "kind": "break", "rule": ["R1", "R1f"], "edits": [{"file": _PG, "old": "from phyclone.smc.samplers import ConditionalSMCSampler\n", "new": "import random\nfrom phyclone.smc.samplers import ConditionalSMCSampler\n"}, {"file": _PG, "old": "subtree_root_child = self._rng.choice(nodes)", "new": "subtree_root_child = random.choice(nodes)"}]},
+    {"name": "R1-spawn-from-fresh-generator", "kind": "break", "rule": ["R1", "R1f", "R2"], "file": _R, "old": "rng_list = rng_main.spawn(num_chains)", "new": "rng_list = np.random.default_rng().spawn(num_chains)"},
+    {"name": "R1-legacy-multinomial-helper", "kind": "break", "rule": ["R1", "R1f"], "file": _M, "old": "    return rng.multinomial(1, p).argmax()", "new": "    return np.random.multinomial(1, p).argmax()"},
+    {"name": "R1-interleave-own-generator", "kind": "break", "rule": ["R1", "R1f"], "edits": [{"file": _SU, "old": "from itertools import repeat\n", "new": "from itertools import repeat\nfrom numpy.random import default_rng\n"}, {"file": _SU, "old": "    rng.shuffle(sentinels)", "new": "    default_rng().shuffle(sentinels)"}]},
+    {"name": "R1-burnin-sampler-own-generator", "kind": "break", "rule": ["R1", "R1f"], "edits": [{"file": _UN, "old": "from phyclone.smc.samplers import SMCSampler\n", "new": "import numpy as np\nfrom phyclone.smc.samplers import SMCSampler\n"}, {"file": _UN, "old": "        self._rng = kernel.rng\n", "new": "        self._rng = np.random.default_rng()\n"}]},
+    {"name": "R1-uuid-seed", "kind": "break", "rule": ["R1", "R1f"], "edits": [{"file": _R, "old": "import numpy as np\n", "new": "import uuid\nimport numpy as np\n"}, {"file": _R, "old": "rng_main = instantiate_and_seed_RNG(seed)", "new": "rng_main = instantiate_and_seed_RNG(uuid.uuid4().int % 2**32 if seed is None else seed + uuid.uuid4().int % 2)"}]},
+    # ---- R2 ---------------------------------------------------------------------------------------------
+    {"name": "R2-results-under-completion-counter", "kind": "break", "rule": ["R2", "R4"], "file": _R, "old": "                    results[res_chain] = result\n", "new": "                    results[len(results)] = result\n"},
+    {"name": "R2-reversed-pairing", "kind": "break", "rule": "R2", "file": _R, "old": "for chain_num, rng in enumerate(rng_list)", "new": "for chain_num, rng in zip(reversed(range(num_chains)), rng_list)"},
+    {"name": "R2-workers-share-main-generator", "kind": "break", "rule": "R2", "file": _R, "old": "                    rng,\n                    samples,", "new": "                    rng_main,\n                    samples,"},
+    {"name": "R2-result-carries-constant-chain-number", "kind": "break", "rule": "R2", "file": _R, "old": "\"chain_num\": chain_num}", "new": "\"chain_num\": 0}"},
+    {"name": "R2-key-from-enumerate-as_completed", "kind": "break", "rule": ["R2", "R4"], "edits": [{"file": _R, "old": "for future in as_completed(chain_results):", "new": "for done, future in enumerate(as_completed(chain_results)):"}, {"file": _R, "old": "                    results[res_chain] = result\n", "new": "                    results[done] = result\n"}]},
+    {"name": "R2-single-chain-fresh-generator", "kind": "break", "rule": ["R2", "R1", "R1f"], "file": _R, "old": "            rng_main,\n            samples,\n            thin,\n            0,", "new": "            np.random.default_rng(),\n            samples,\n            thin,\n            0,"},
+    {"name": "R2-worker-passes-wrong-chain-number", "kind": "break", "rule": "R2", "file": _R, "old": "        tree_dist,\n        chain_num,\n        rng,\n        subtree_update_prob,\n    )\n    return results", "new": "        tree_dist,\n        0,\n        rng,\n        subtree_update_prob,\n    )\n    return results"},
+    {"name": "R2-spawn-list-resorted", "kind": "break", "rule": "R2", "file": _R, "old": "for chain_num, rng in enumerate(rng_list)", "new": "for chain_num, rng in enumerate(sorted(rng_list, key=id))"},
+    # ---- R3 ---------------------------------------------------------------------------------------------
+    {"name": "R3-iterate-set-of-outliers", "kind": "break", "rule": "R3", "file": _PG, "old": "        for data_point in tree.outliers:\n", "new": "        for data_point in set(tree.outliers):\n"},
+    {"name": "R3-dedupe-outliers-before-shuffle", "kind": "break", "rule": "R3", "file": _SU, "old": "outliers = list(tree.outliers)", "new": "outliers = list(set(tree.outliers))"},
+    {"name": "R3-labels-via-set-of-datapoints", "kind": "break", "rule": "R3", "file": _T, "old": "result = {dp.idx: k for k, l in self.node_data.items() for dp in l}", "new": "result = {dp.idx: k for k, l in self.node_data.items() for dp in set(l)}"},
+    {"name": "R3-candidates-sorted-by-hash", "kind": "break", "rule": "R3", "file": _FA, "old": "tree = list(self._log_p.keys())[idx]", "new": "tree = sorted(self._log_p.keys(), key=hash)[idx]"},
+    {"name": "R3-indices-sorted-by-id", "kind": "break", "rule": "R3", "file": _G, "old": "data_idxs = list(tree_labels.keys())", "new": "data_idxs = sorted(tree_labels.keys(), key=id)"},
+    {"name": "R3-pop-from-set-of-names", "kind": "break", "rule": "R3", "file": _PG, "old": "subtree_root_child = self._rng.choice(nodes)", "new": "subtree_root_child = int({str(n) for n in nodes}.pop())"},
+    {"name": "R3-hash-as-tiebreak", "kind": "break", "rule": "R3", "file": _PG, "old": "particle_idx = discrete_rvs(swarm.weights, self._rng)", "new": "particle_idx = (discrete_rvs(swarm.weights, self._rng) + hash(swarm.particles[0])) % len(swarm.particles)"},
+    # ---- R4 ---------------------------------------------------------------------------------------------
+    {"name": "R4-completion-order-recorded", "kind": "break", "rule": "R4", "file": _R, "old": "                    results[res_chain] = result\n", "new": "                    results[res_chain] = result\n                    results[0].setdefault(\"finish_order\", []).append(res_chain)\n"},
+    {"name": "R4-clock-switches-move", "kind": "break", "rule": "R4", "file": _R, "old": "            if rng.random() < subtree_update_prob:", "new": "            if rng.random() < subtree_update_prob or timer.elapsed > 60:"},
+    {"name": "R4-clock-sets-sweep-count", "kind": "break", "rule": "R4", "file": _R, "old": "            for _ in range(num_samples_data_point):\n                tree = dp_sampler.sample_tree(tree)\n\n            for _ in range(num_samples_prune_regraph):\n                tree = prg_sampler.sample_tree(tree)\n\n            tree.relabel_nodes()\n\n            if concentration_update", "new": "            for _ in range(num_samples_data_point + int(timer.elapsed < 1.0)):\n                tree = dp_sampler.sample_tree(tree)\n\n            for _ in range(num_samples_prune_regraph):\n                tree = prg_sampler.sample_tree(tree)\n\n            tree.relabel_nodes()\n\n            if concentration_update"},
+    {"name": "R4-clock-in-alpha-field", "kind": "break", "rule": "R4", "file": _R, "old": "\"alpha\": tree_dist.prior.alpha,", "new": "\"alpha\": tree_dist.prior.alpha + 1e-12 * timer.elapsed,"},
+    # ---- benign ---------------------------------------------------------------------------------------
+    {"name": "benign-rename-rng-parameter", "kind": "benign", "edits": [{"file": _G, "old": "def __init__(self, tree_dist, rng: np.random.Generator, outliers=False):", "new": "def __init__(self, tree_dist, generator: np.random.Generator, outliers=False):"}, {"file": _G, "old": "        self.outliers = outliers\n\n        self._rng = rng\n", "new": "        self.outliers = outliers\n\n        self._rng = generator\n"}]},
+    {"name": "benign-spawn-into-dict-keyed-by-chain", "kind": "benign", "edits": [{"file": _R, "old": "rng_list = rng_main.spawn(num_chains)", "new": "rng_list = dict(enumerate(rng_main.spawn(num_chains)))"}, {"file": _R, "old": "for chain_num, rng in enumerate(rng_list)", "new": "for chain_num, rng in rng_list.items()"}]},
+    {"name": "benign-zip-range-pairing", "kind": "benign", "file": _R, "old": "for chain_num, rng in enumerate(rng_list)", "new": "for chain_num, rng in zip(range(num_chains), rng_list)"},
+    {"name": "benign-local-alias-of-generator", "kind": "benign", "file": _G, "old": "        self._rng.shuffle(data_idxs)\n", "new": "        gen = self._rng\n        gen.shuffle(data_idxs)\n"},
+    {"name": "benign-helper-wraps-seeding", "kind": "benign", "edits": [{"file": _R, "old": "    rng_main = instantiate_and_seed_RNG(seed)\n", "new": "    rng_main = _make_main_rng(seed)\n"}, {"file": _R, "old": "def instantiate_and_seed_RNG(seed):", "new": "def _make_main_rng(seed):\n    return instantiate_and_seed_RNG(seed)\n\n\ndef instantiate_and_seed_RNG(seed):"}]},
+    {"name": "benign-rng-by-keyword", "kind": "benign", "file": _R, "old": "prg_sampler = PruneRegraphSampler(tree_dist, rng)", "new": "prg_sampler = PruneRegraphSampler(tree_dist, rng=rng)"},
+    {"name": "benign-extra-print-in-completion-loop", "kind": "benign", "file": _R, "old": "print(\"Finished chain\", res_chain)", "new": "print(\"Finished chain\", res_chain, \"of\", len(chain_results))"},
+    {"name": "benign-sorted-int-set", "kind": "benign", "file": _T, "old": "return [self._graph[child].node_id for child in descs]", "new": "return [self._graph[child].node_id for child in sorted(descs)]"},
+    {"name": "benign-print-elapsed", "kind": "benign", "file": _R, "old": "    print(\"Post-burnin\")", "new": "    print(\"Post-burnin\", timer.elapsed)"},
+    {"name": "benign-inline-result-key", "kind": "benign", "file": _R, "old": "                    res_chain = result[\"chain_num\"]\n                    results[res_chain] = result\n                    print(\"Finished chain\", res_chain)", "new": "                    results[result[\"chain_num\"]] = result\n                    print(\"Finished chain\", result[\"chain_num\"])"},
+    {"name": "benign-split-spawn-statement", "kind": "benign", "file": _R, "old": "        rng_list = rng_main.spawn(num_chains)\n", "new": "        children = rng_main.spawn(num_chains)\n        rng_list = list(children)\n"},
+]
